@@ -142,6 +142,7 @@ pub trait Duration: Clone + Copy + AddAssign + PartialOrd {
         assert(m <= 86_400_000_000 ==> m * k <= 86_400_000_000 * k) by(nonlinear_arith);
     }
 
+
     pub broadcast group group_duration { lemma_dur_add, lemma_dur_add_spec, lemma_dur_lt, lemma_dur_bounded, lemma_mul_k_day }
 }
 
@@ -664,6 +665,18 @@ pub mod spec {
 
     pub open spec fn flag_n(b: bool) -> nat { if b { 0 } else { 1 } }
 
+    pub enum Sig { Zero, One(int), Many }
+
+    // [C09.join], written from the statement: a machine that signals again does not become a
+    // second signaller; a different machine does.
+    pub open spec fn sig_join(s: Sig, mi: int) -> Sig {
+        match s {
+            Sig::Zero => Sig::One(mi),
+            Sig::One(x) => if x == mi { Sig::One(x) } else { Sig::Many },
+            Sig::Many => Sig::Many,
+        }
+    }
+
     pub open spec fn action_has_limit(a: Action) -> bool {
         match a {
             Action::SendPadding { limit, .. } => limit is Some,
@@ -719,6 +732,8 @@ pub struct MachineRuntime<T: crate::time::Instant> {
     pub allowed_blocked_microsec: T::Duration,
     pub counter_a: u64,
     pub counter_b: u64,
+    // only allow each counter to be zeroed once per trigger_events call
+    pub counter_zeroed_once: (bool, bool),
 }
 #[derive(PartialEq)]
 pub enum StateChange {
@@ -767,9 +782,9 @@ where
     pub blocking_active: bool,
     // for internal signaling: if set, specifies the target machines to signal
     pub signal_pending: Option<SignalTarget>,
-    // only allow each counter to be zeroed once per trigger_events call
-    pub counter_zeroed_once: (bool, bool),
     pub framework_start: T,
+    // I1 (ghost, erased): every delivery of an event to a live machine, in order
+    pub ghost_log: Ghost<Seq<(int, Event)>>,
 }
 impl<M, R, T> Framework<M, R, T>
 where
@@ -817,8 +832,18 @@ where
         // reset all actions
         self.actions.fill(None);
 
-        // reset flags for zeroed counters (allowed to zero once per call)
-        self.counter_zeroed_once = (false, false);
+        // reset flags for zeroed counters (each machine is allowed to zero each
+        // of its counters once per call)
+        for mi in 0..self.runtime.len()
+            invariant
+                self.wf(),
+                self.machines == old(self).machines,
+                self.dur_headroom(current_time),
+                self.runtime@.len() == old(self).runtime@.len(),
+                self.normal_sent_packets + self.padding_sent_packets + events@.len() <= u64::MAX,
+                                        {
+            self.runtime[mi].counter_zeroed_once = (false, false);
+        }
 
         // Process all events: note that each event may lead to up to one action
         // per machine, but that future events may replace those actions. Under
@@ -1051,15 +1076,19 @@ where
     }
     fn transition(&mut self, mi: usize, event: Event) -> (r: StateChange)
         requires
-            old(self).inv(),
-            mi < old(self).n(),
+            old(self).inv(),   // [C01.wf][C04.slot]
+            mi < old(self).n(),   // [C01.ids]
         ensures
-            final(self).inv(),
-            final(self).same_config(old(self)),
-            final(self).same_acct(old(self)),
-            final(self).others_untouched(old(self), mi as int),
-            final(self).flags_mono(old(self)),
-        decreases old(self).flags_left(), 2nat
+            final(self).wf_core(),   // [C01.wf]
+            final(self).slots_ok(),   // [C04.slot]
+            final(self).dur_headroom(final(self).current_time),   // [C01.dur]
+            final(self).same_config(old(self)),   // [C01.frame][C05.frame]
+            final(self).same_acct(old(self)),   // [C02.acct][C03.acct][C10.shared]
+            final(self).others_untouched(old(self), mi as int),   // [C10.frame]
+            final(self).flags_mono(old(self)),   // [C01.term]
+            final(self).sig() == old(self).sig() || final(self).sig() == sig_join(old(self).sig(), mi as int),   // [C09.join]
+            final(self).log_step(old(self), mi as int, 1),   // [C10.local][C01.steps]
+        decreases old(self).flags_left(mi as int), 2nat
                                                                      {
         // a machine in end state cannot transition
         if self.runtime[mi].current_state == STATE_END {
@@ -1069,6 +1098,7 @@ where
         // sample next state
         // new block for immutable ref, makes things less ugly
         let next_state = {
+            proof { self.ghost_log@ = self.ghost_log@.push((mi as int, event)); }   // I3
             let machine = &self.machines.as_ref()[mi];
             let state = &machine.states[self.runtime[mi].current_state];
             state.sample_state(event, &mut self.rng)
@@ -1093,6 +1123,10 @@ where
                 self.signal_pending = match self.signal_pending {
                     // no signal pending, so signal all *other* machines
                     None => Some(SignalTarget::AllExcept(mi)),
+                    // the same machine signalling again is still the only signaller
+                    Some(SignalTarget::AllExcept(excluded)) if excluded == mi => {
+                        Some(SignalTarget::AllExcept(mi))
+                    }
                     // signal already pending from another machine, so signal
                     // all machines (including this one)
                     _ => Some(SignalTarget::All),
@@ -1140,16 +1174,20 @@ where
     }
     fn update_counter(&mut self, mi: usize) -> (r: (bool, bool))
         requires
-            old(self).inv(),
-            mi < old(self).n(),
+            old(self).inv(),   // [C01.wf][C04.slot]
+            mi < old(self).n(),   // [C01.ids]
             old(self).runtime@[mi as int].current_state != STATE_END,
         ensures
-            final(self).inv(),
-            final(self).same_config(old(self)),
-            final(self).same_acct(old(self)),
-            final(self).others_untouched(old(self), mi as int),
-            final(self).flags_mono(old(self)),
-        decreases old(self).flags_left(), 1nat
+            final(self).wf_core(),   // [C01.wf]
+            final(self).slots_ok(),   // [C04.slot]
+            final(self).dur_headroom(final(self).current_time),   // [C01.dur]
+            final(self).same_config(old(self)),   // [C01.frame][C05.frame]
+            final(self).same_acct(old(self)),   // [C02.acct][C03.acct][C10.shared]
+            final(self).others_untouched(old(self), mi as int),   // [C10.frame]
+            final(self).flags_mono(old(self)),   // [C01.term]
+            final(self).sig() == old(self).sig() || final(self).sig() == sig_join(old(self).sig(), mi as int),   // [C09.join]
+            final(self).log_step(old(self), mi as int, 0),   // [C10.local][C01.steps]
+        decreases old(self).flags_left(mi as int), 1nat
                                                             {
         let state = &self.machines.as_ref()[mi].states[self.runtime[mi].current_state];
 
@@ -1178,9 +1216,12 @@ where
                 }
             }
 
-            if old_value_a != 0 && *updated_value_a == 0 && !self.counter_zeroed_once.0 {
+            if old_value_a != 0
+                && *updated_value_a == 0
+                && !self.runtime[mi].counter_zeroed_once.0
+            {
                 any_counter_zeroed = true;
-                self.counter_zeroed_once.0 = true;
+                self.runtime[mi].counter_zeroed_once.0 = true;
             }
         }
 
@@ -1204,9 +1245,12 @@ where
                 }
             }
 
-            if old_value_b != 0 && *updated_value_b == 0 && !self.counter_zeroed_once.1 {
+            if old_value_b != 0
+                && *updated_value_b == 0
+                && !self.runtime[mi].counter_zeroed_once.1
+            {
                 any_counter_zeroed = true;
-                self.counter_zeroed_once.1 = true;
+                self.runtime[mi].counter_zeroed_once.1 = true;
             }
         }
 
@@ -1223,18 +1267,20 @@ where
     }
     fn schedule_action(&mut self, mi: usize, state: usize) 
         requires
-            old(self).inv(),
-            mi < old(self).n(),
+            old(self).inv(),   // [C01.wf][C04.slot]
+            mi < old(self).n(),   // [C01.ids]
             state < old(self).ms()[mi as int].states@.len(),
         ensures
-            final(self).inv(),
-            final(self).same_config(old(self)),
-            final(self).same_acct(old(self)),
-            final(self).others_untouched(old(self), mi as int),
-            final(self).flags_mono(old(self)),
+            final(self).wf_core(),   // [C01.wf]
+            final(self).slots_ok(),   // [C04.slot]
+            final(self).dur_headroom(final(self).current_time),   // [C01.dur]
+            final(self).same_config(old(self)),   // [C01.frame][C05.frame]
+            final(self).same_acct(old(self)),   // [C02.acct][C03.acct][C10.shared]
+            final(self).others_untouched(old(self), mi as int),   // [C10.frame]
+            final(self).flags_mono(old(self)),   // [C01.term]
             final(self).runtime == old(self).runtime,
             final(self).signal_pending == old(self).signal_pending,
-            final(self).counter_zeroed_once == old(self).counter_zeroed_once,
+            final(self).ghost_log == old(self).ghost_log,
                                                            {
         let index = MachineId(mi);
         let action = self.machines.as_ref()[mi].states[state].action;
@@ -1278,16 +1324,20 @@ where
     }
     fn decrement_limit(&mut self, mi: usize) 
         requires
-            old(self).inv(),
-            mi < old(self).n(),
+            old(self).inv(),   // [C01.wf][C04.slot]
+            mi < old(self).n(),   // [C01.ids]
             old(self).runtime@[mi as int].current_state != STATE_END,
         ensures
-            final(self).inv(),
-            final(self).same_config(old(self)),
-            final(self).same_acct(old(self)),
-            final(self).others_untouched(old(self), mi as int),
-            final(self).flags_mono(old(self)),
-        decreases old(self).flags_left(), 3nat
+            final(self).wf_core(),   // [C01.wf]
+            final(self).slots_ok(),   // [C04.slot]
+            final(self).dur_headroom(final(self).current_time),   // [C01.dur]
+            final(self).same_config(old(self)),   // [C01.frame][C05.frame]
+            final(self).same_acct(old(self)),   // [C02.acct][C03.acct][C10.shared]
+            final(self).others_untouched(old(self), mi as int),   // [C10.frame]
+            final(self).flags_mono(old(self)),   // [C01.term]
+            final(self).sig() == old(self).sig() || final(self).sig() == sig_join(old(self).sig(), mi as int),   // [C09.join]
+            final(self).log_step(old(self), mi as int, 1),   // [C10.local][C01.steps]
+        decreases old(self).flags_left(mi as int), 3nat
                                              {
         if self.runtime[mi].state_limit > 0 {
             self.runtime[mi].state_limit -= 1;
@@ -1333,7 +1383,7 @@ where
             self.blocking_duration.units() + self.pending_block(self.current_time)
                 <= <T::Duration as crate::time::Duration>::max_units(),
         ensures
-            r ==> runtime.state_limit > 0,   // [C07.pos] (V-LEAF on the body, K-BLK)
+            r ==> runtime.state_limit > 0,   // [C07.pos] (V-LEAF on the body for every clock type T; K-BLK)
     { unimplemented!() }
     #[verifier::external_body]
     fn below_limit_padding(&self, runtime: &MachineRuntime<T>, machine: &Machine) -> (r: bool)
@@ -1341,7 +1391,7 @@ where
             runtime.normal_sent + runtime.padding_sent <= u64::MAX,
             self.normal_sent_packets + self.padding_sent_packets <= u64::MAX,
         ensures
-            r ==> runtime.state_limit > 0,   // [C07.pos] (V-LEAF on the body, K-PAD)
+            r ==> runtime.state_limit > 0,   // [C07.pos] (V-LEAF on the body; K-PAD)
     { unimplemented!() }
 }
 
@@ -1356,17 +1406,23 @@ where
     pub open spec fn n(&self) -> int { self.runtime@.len() as int }
 
     // number of CounterZero guards still unset: bounds the transition recursion
-    pub open spec fn flags_left(&self) -> nat {
-        flag_n(self.counter_zeroed_once.0) + flag_n(self.counter_zeroed_once.1)
+    pub open spec fn flags_left(&self, mi: int) -> nat {
+        flag_n(self.runtime@[mi].counter_zeroed_once.0) + flag_n(self.runtime@[mi].counter_zeroed_once.1)
     }
 
-    pub open spec fn wf(&self) -> bool {
+    pub open spec fn wf(&self) -> bool { self.wf_core() && self.slots_ok() }
+
+    // [C04.slot]
+    pub open spec fn slots_ok(&self) -> bool {
+        forall|i: int| 0 <= i < self.n() ==> slot_ok(#[trigger] self.actions@[i], self.ms()[i], i)
+    }
+
+    pub open spec fn wf_core(&self) -> bool {
         &&& self.runtime@.len() == self.ms().len()
         &&& self.actions@.len() == self.ms().len()
         &&& forall|i: int| 0 <= i < self.ms().len() ==> machine_ok(#[trigger] self.ms()[i])
         &&& forall|i: int| 0 <= i < self.n() ==> cs_ok((#[trigger] self.runtime@[i]).current_state, self.ms()[i])
         &&& (self.signal_pending matches Some(SignalTarget::AllExcept(x)) ==> x < self.n())
-        &&& forall|i: int| 0 <= i < self.n() ==> slot_ok(#[trigger] self.actions@[i], self.ms()[i], i)
         // packet accounting (trusted bound: fewer than 2^64 reported packets, DESIGN 2.3-5)
         &&& self.normal_sent_packets + self.padding_sent_packets <= u64::MAX
         &&& forall|i: int| 0 <= i < self.n() ==>
@@ -1387,6 +1443,25 @@ where
         &&& forall|i: int| 0 <= i < self.n() ==>
                 (#[trigger] self.runtime@[i]).blocking_duration.units() + self.pending_block(now)
                     <= <T::Duration as crate::time::Duration>::max_units()
+    }
+
+    // abstract signaller set of C09: nobody, exactly machine x, two or more distinct machines
+    pub open spec fn sig(&self) -> Sig {
+        match self.signal_pending {
+            None => Sig::Zero,
+            Some(SignalTarget::AllExcept(x)) => Sig::One(x as int),
+            Some(SignalTarget::All) => Sig::Many,
+        }
+    }
+
+    pub open spec fn log(&self) -> Seq<(int, Event)> { self.ghost_log@ }
+
+    // deliveries made by one step of machine mi: only to mi, and at most one per guard it consumes
+    // plus the triggering one  [C10.local][C01.steps]
+    pub open spec fn log_step(&self, o: &Self, mi: int, own: int) -> bool {
+        &&& o.log().is_prefix_of(self.log())
+        &&& forall|k: int| o.log().len() <= k < self.log().len() ==> (#[trigger] self.log()[k]).0 == mi
+        &&& self.log().len() - o.log().len() <= own + (o.flags_left(mi) - self.flags_left(mi))
     }
 
     pub open spec fn inv(&self) -> bool { self.wf() && self.dur_headroom(self.current_time) }
@@ -1426,8 +1501,9 @@ where
 
     // guards only ever get set within a call
     pub open spec fn flags_mono(&self, o: &Self) -> bool {
-        &&& (o.counter_zeroed_once.0 ==> self.counter_zeroed_once.0)
-        &&& (o.counter_zeroed_once.1 ==> self.counter_zeroed_once.1)
+        forall|i: int| 0 <= i < self.n() ==>
+            (o.runtime@[i].counter_zeroed_once.0 ==> (#[trigger] self.runtime@[i]).counter_zeroed_once.0)
+            && (o.runtime@[i].counter_zeroed_once.1 ==> self.runtime@[i].counter_zeroed_once.1)
     }
 
     pub open spec fn step_frame(&self, o: &Self, mi: int) -> bool {
